@@ -107,7 +107,13 @@ def gen(tp, feat, tier='quick'):
 
 
 def _gen_stmt(tp, feat, r, routines, n_clocks):
-    x = tp.draw(20)
+    x = tp.draw(26 if (feat.get('sync') or feat.get('control')) else 20)
+    if x >= 20:
+        x = 19
+        if feat.get('sync') and feat.get('control'):
+            feat = dict(feat, **{tp.choice(['sync', 'control']): False})
+        feat = dict(feat, draws=False, grid=False)
+        return _gen_stmt19(tp, feat, r, routines, n_clocks)
     if x < 9:
         d = tp.choice(DELTAS)
         if feat.get('odd_deltas') and tp.draw(5) == 0:
@@ -137,7 +143,53 @@ def _gen_stmt(tp, feat, r, routines, n_clocks):
         return ['grid', tp.draw(n_clocks), q, p]
     if feat.get('draws') and x < 19:
         return ['draw', tp.choice(DRAW_KINDS)]
+    if feat.get('sync') and x < 20 and tp.draw(2):
+        k = tp.draw(8)
+        c = tp.draw(2)
+        if k < 3:
+            return ['cwait', c]
+        if k == 3:
+            return ['csignal', c]
+        if k == 4:
+            return ['cset', c, bool(tp.draw(2))]
+        if k == 5:
+            return ['cunhang', c]
+        if k == 6:
+            return ['fset', tp.draw(2), tp.draw(100)]
+        return ['fget', tp.draw(2)]
+    if feat.get('control') and x < 20:
+        k = tp.draw(4)
+        t = tp.draw(len(routines))
+        if t == r:
+            t = (t + 1) % len(routines)
+        if t == r or t == 0:
+            return ['wait', tp.choice(DELTAS)]
+        return [['pause', 'resume', 'resume', 'stop'][k], t]
     return ['wait', tp.choice(DELTAS)]
+
+
+def _gen_stmt19(tp, feat, r, routines, n_clocks):
+    if feat.get('sync'):
+        k = tp.draw(8)
+        c = tp.draw(2)
+        if k < 3:
+            return ['cwait', c]
+        if k == 3:
+            return ['csignal', c]
+        if k == 4:
+            return ['cset', c, bool(tp.draw(2))]
+        if k == 5:
+            return ['cunhang', c]
+        if k == 6:
+            return ['fset', tp.draw(2), tp.draw(100)]
+        return ['fget', tp.draw(2)]
+    k = tp.draw(4)
+    t = tp.draw(len(routines))
+    if t == r:
+        t = (t + 1) % len(routines)
+    if t == r or t == 0:
+        return ['wait', tp.choice(DELTAS)]
+    return [['pause', 'resume', 'resume', 'stop'][k], t]
 
 
 def _gen_lat(tp):
@@ -263,9 +315,11 @@ class Interp:
                     inval = yield st[1]
                     rout, clock = inval
                 elif op == 'cwait':
+                    me.event('cwait', rid, st[1])
                     yield from me.cond(st[1]).wait()
                     me.event('cwoke', rid, st[1])
                 elif op == 'fget':
+                    me.event('fget', rid, st[1])
                     v = yield from me.flow(st[1]).value
                     me.event('fgot', rid, st[1], v)
                 else:
@@ -287,7 +341,8 @@ class Interp:
     def event(self, kind, rid, *vals):
         cur = self.main.current_tt
         self.trace.append({'ev': kind, 'r': rid, 'secs': cur._seconds,
-                           'vals': list(vals), 'now': self.now()})
+                           'vals': list(vals), 'now': self.now(),
+                           'state': cur.state.name})
 
     def stmt(self, rid, rout, clock, st):
         op = st[0]
@@ -361,6 +416,7 @@ class Interp:
                         'bpb': c.beats_per_bar})
         elif op == 'seed':
             rout.rand_seed = st[1]
+            self.event('seed', rid, st[1])
         elif op == 'draw':
             self.event('draw', rid, st[1], self.draw(st[1]))
         elif op == 'pause':
@@ -373,10 +429,13 @@ class Interp:
             self.robj[st[1]].stop() if st[1] in self.robj else None
             self.event('stop', rid, st[1])
         elif op == 'csignal':
+            self.event('csignal', rid, st[1])
             self.cond(st[1]).signal()
         elif op == 'cunhang':
+            self.event('cunhang', rid, st[1])
             self.cond(st[1]).unhang()
         elif op == 'cset':
+            self.event('cset', rid, st[1], st[2])
             self.cond(st[1]).test = st[2]
         elif op == 'fset':
             try:
